@@ -13,27 +13,27 @@ Proof.
   intros. unfold broker_feed. destruct (N.eqb (w_broker w) 0); [reflexivity|].
   destruct (broker_split _ _ _) as [r rest]. destruct r; reflexivity.
 Qed.
-Lemma broker_feed_live : forall w a, w_live (broker_feed w a) = w_live w.
+Lemma broker_feed_live : forall w a, w_envok (broker_feed w a) = w_envok w.
 Proof.
   intros. unfold broker_feed. destruct (N.eqb (w_broker w) 0); [reflexivity|].
   destruct (broker_split _ _ _) as [r rest]. destruct r; reflexivity.
 Qed.
 
-Lemma io_write_sess : forall bs w, w_sess (fst (io_write bs w)) = w_sess w /\ w_live (fst (io_write bs w)) = w_live w.
+Lemma io_write_sess : forall bs w, w_sess (fst (io_write bs w)) = w_sess w /\ w_envok (fst (io_write bs w)) = w_envok w.
 Proof.
   intros. unfold io_write. destruct (N.eqb (lenN bs) 0); [split; reflexivity|].
   destruct (next_ev w) as [[k amt] rest].
   destruct (N.eqb k 1); [split; reflexivity|]. destruct (N.eqb k 2); [split; reflexivity|].
   destruct (N.eqb k 3); [split; reflexivity|]. cbn [fst]. now rewrite broker_feed_sess, broker_feed_live.
 Qed.
-Lemma io_flush_sess : forall w, w_sess (fst (io_flush w)) = w_sess w /\ w_live (fst (io_flush w)) = w_live w.
+Lemma io_flush_sess : forall w, w_sess (fst (io_flush w)) = w_sess w /\ w_envok (fst (io_flush w)) = w_envok w.
 Proof.
   intros. unfold io_flush. destruct (next_ev w) as [[k amt] rest].
   destruct (N.eqb k 1); [split; reflexivity|]. destruct (N.eqb k 3); split; reflexivity.
 Qed.
-Lemma deliver_sess : forall win amt w, w_sess (fst (deliver win amt w)) = w_sess w /\ w_live (fst (deliver win amt w)) = w_live w.
+Lemma deliver_sess : forall win amt w, w_sess (fst (deliver win amt w)) = w_sess w /\ w_envok (fst (deliver win amt w)) = w_envok w.
 Proof. intros. unfold deliver. destruct (avail_split _ _) as [av later]. split; reflexivity. Qed.
-Lemma io_read_sess : forall win d w, w_sess (fst (io_read win d w)) = w_sess w /\ w_live (fst (io_read win d w)) = w_live w.
+Lemma io_read_sess : forall win d w, w_sess (fst (io_read win d w)) = w_sess w /\ w_envok (fst (io_read win d w)) = w_envok w.
 Proof.
   intros. unfold io_read. destruct (N.eqb win 0); [split; reflexivity|].
   destruct (next_ev w) as [[k amt] rest].
@@ -55,19 +55,36 @@ Proof.
     rewrite H1, H2. split; reflexivity.
 Qed.
 
-(* world-level: the session of w' is quietly reachable from the session of w *)
-Definition wq (w w' : world) : Prop := qreach (w_sess w) (w_sess w').
+(* world-level: the session of w' is reachable from the session of w by LTS steps, and the ghost flag of the
+   world has been and-ed with the environment flags of exactly those steps *)
+Definition wq (w w' : world) : Prop :=
+  exists b, ereach (w_sess w) b (w_sess w') /\ w_envok w' = w_envok w && b.
 
-Lemma wq_refl : forall w, wq w w. Proof. intros. apply qreach_refl. Qed.
-Lemma wq_trans : forall a b c, wq a b -> wq b c -> wq a c. Proof. intros. eapply qreach_trans; eassumption. Qed.
-Lemma wq_same : forall w w', w_sess w' = w_sess w -> wq w w'.
-Proof. intros w w' H. unfold wq. rewrite H. apply qreach_refl. Qed.
+Lemma wq_refl : forall w, wq w w.
+Proof. intros. exists true. split; [apply ereach_refl | now rewrite andb_true_r]. Qed.
+Lemma wq_trans : forall a b c, wq a b -> wq b c -> wq a c.
+Proof.
+  intros a b c [x [H1 E1]] [y [H2 E2]]. exists (x && y). split; [eapply ereach_trans; eassumption|].
+  rewrite E2, E1. now rewrite andb_assoc.
+Qed.
+Lemma wq_same : forall w w', w_sess w' = w_sess w /\ w_envok w' = w_envok w -> wq w w'.
+Proof.
+  intros w w' [H1 H2]. exists true. split; [rewrite H1; apply ereach_refl | now rewrite H2, andb_true_r].
+Qed.
+(* a step taken on the session of a world, the rest of the world (in particular the ghost) unchanged *)
+Lemma wq_step : forall w w' l, sstep (w_sess w) l (w_sess w') -> label_ok l = true -> w_envok w' = w_envok w -> wq w w'.
+Proof.
+  intros w w' l H Hl He. exists (label_ok l). split; [now apply ereach_step | now rewrite He, Hl, andb_true_r].
+Qed.
+
+Ltac qstep := eapply wq_step; [wsimpl; econstructor; eassumption | reflexivity | reflexivity].
+Ltac qstep0 := eapply wq_step; [wsimpl; constructor | reflexivity | reflexivity].
 
 Lemma write_all_wq : forall fuel bs w, wq w (fst (write_all fuel bs w)).
 Proof.
   induction fuel as [|f IH]; intros bs w; cbn [write_all]; [apply wq_refl|].
   destruct bs as [|b bs']; [apply wq_refl|].
-  pose proof (io_write_sess (b :: bs') w) as [Hs _].
+  pose proof (io_write_sess (b :: bs') w) as Hs.
   destruct (io_write (b :: bs') w) as [w1 r]. cbn [fst] in Hs.
   destruct r as [n| |]; try (apply wq_same; exact Hs).
   destruct (N.eqb n 0); [apply wq_same; exact Hs|].
@@ -75,17 +92,17 @@ Proof.
 Qed.
 
 Lemma hd_wq : forall w, wq w (w_hd w).
-Proof. intros. unfold wq. wsimpl. apply qreach_step. constructor. Qed.
+Proof. intros. qstep0. Qed.
 
 Lemma flush_current_wq : forall p now w, wq w (fst (flush_current p now w)).
 Proof.
   intros. unfold flush_current. destruct (negb (w_live w)); [apply wq_refl|].
-  pose proof (io_flush_sess w) as [Hs _]. destruct (io_flush w) as [w1 r]. cbn [fst] in Hs.
+  pose proof (io_flush_sess w) as Hs. destruct (io_flush w) as [w1 r]. cbn [fst] in Hs.
   destruct r.
   - destruct (complete_flush (w_sess w1) p now) as [s found] eqn:E.
     assert (wq w (upd_sess w1 s)).
-    { unfold wq. wsimpl. rewrite <- Hs. replace s with (fst (complete_flush (w_sess w1) p now)) by now rewrite E.
-      apply qreach_step. constructor. }
+    { eapply wq_trans; [apply wq_same; exact Hs|].
+      replace s with (fst (complete_flush (w_sess w1) p now)) by now rewrite E. qstep0. }
     destruct found; exact H.
   - eapply wq_trans; [apply wq_same; exact Hs | apply hd_wq].
   - apply wq_same; exact Hs.
@@ -97,15 +114,15 @@ Proof.
   intros st now w Hn. unfold perform_outbound_step.
   destruct (prepare_step (w_sess w) st) as [p bs written len|p| |e] eqn:Ep; try apply wq_refl.
   - destruct (negb (w_live w)); [apply wq_refl|].
-    pose proof (io_write_sess (dropN written bs) w) as [Hs _].
+    pose proof (io_write_sess (dropN written bs) w) as Hs.
     destruct (io_write (dropN written bs) w) as [w1 r]. cbn [fst] in Hs.
     destruct r as [n| |].
     + destruct (N.eqb n 0); [apply wq_same; exact Hs|].
       destruct (set_written (w_sess w1) p (written + n) len) as [s found] eqn:E.
       assert (Hq : wq w (upd_sess w1 s)).
-      { unfold wq. wsimpl. rewrite Hs in E.
-        replace s with (fst (set_written (w_sess w) p (written + n) len)) by now rewrite E.
-        apply qreach_step. econstructor; eassumption. }
+      { eapply wq_trans; [apply wq_same; exact Hs|]. destruct Hs as [Hs He].
+        replace s with (fst (set_written (w_sess w1) p (written + n) len)) by now rewrite E.
+        rewrite <- Hs in Hn, Ep. qstep. }
       destruct (negb found); [exact Hq|].
       destruct (written + n <? len); [exact Hq|].
       eapply wq_trans; [exact Hq | apply flush_current_wq].
@@ -115,7 +132,7 @@ Proof.
 Qed.
 
 Lemma ping_wq : forall w now, wq w (upd_sess w (fst (maybe_queue_pingreq (w_sess w) now))).
-Proof. intros. unfold wq. wsimpl. apply qreach_step. constructor. Qed.
+Proof. intros. qstep0. Qed.
 
 Lemma flush_outbound_wq : forall fuel w, wq w (fst (flush_outbound fuel w)).
 Proof.
@@ -134,16 +151,16 @@ Lemma process_received_wq : forall w, wq w (fst (process_received w)).
 Proof.
   intros. unfold process_received. destruct (negb (packet_available _)); [apply wq_refl|].
   destruct (take_packet (s_reader (w_sess w))) as [[[r' pl] [p|]]|]; try apply wq_refl.
-  - assert (H1 : wq w (upd_sess w (set_reader (w_sess w) r'))).
-    { unfold wq. wsimpl. apply qreach_step. constructor. }
+  - assert (H1 : wq w (upd_sess w (set_reader (w_sess w) r'))) by qstep0.
     destruct (handle_packet (set_reader (w_sess w) r') p) as [s2 hr] eqn:E.
-    assert (H2 : wq w (upd_sess w s2)).
-    { eapply wq_trans; [exact H1|]. unfold wq. wsimpl.
+    set (ok := ack_type_ok (set_reader (w_sess w) r') p).
+    assert (H2 : wq w (upd_envok (upd_sess w s2) (w_envok w && ok))).
+    { eapply wq_trans; [exact H1|]. exists ok. split; [|reflexivity]. wsimpl.
       replace s2 with (fst (handle_packet (set_reader (w_sess w) r') p)) by now rewrite E.
-      apply qreach_step. constructor. }
+      apply (ereach_step _ _ _ (SS_packet (set_reader (w_sess w) r') p)). }
     destruct hr as [[|]|e]; try exact H2.
     destruct e; try exact H2; (eapply wq_trans; [exact H2 | apply hd_wq]).
-  - eapply wq_trans; [|apply hd_wq]. unfold wq. wsimpl. apply qreach_step. constructor.
+  - eapply wq_trans; [|apply hd_wq]. qstep0.
 Qed.
 
 Lemma service_wq : forall now w, wq w (fst (service now w)).
@@ -176,17 +193,15 @@ Proof.
   induction fuel as [|f IH]; intros d w; cbn [fill_packet_reader]; [apply wq_refl|].
   destruct (packet_available _); [apply wq_refl|].
   destruct (receive_buffer (s_reader (w_sess w))) as [r' [win|]].
-  - assert (H0 : wq w (upd_sess w (set_reader (w_sess w) r'))).
-    { unfold wq. wsimpl. apply qreach_step. constructor. }
+  - assert (H0 : wq w (upd_sess w (set_reader (w_sess w) r'))) by qstep0.
     destruct (N.eqb win 0); [exact H0|].
-    pose proof (io_read_sess win d (upd_sess w (set_reader (w_sess w) r'))) as [Hs _].
+    pose proof (io_read_sess win d (upd_sess w (set_reader (w_sess w) r'))) as Hs.
     destruct (io_read win d (upd_sess w (set_reader (w_sess w) r'))) as [w1 r]. cbn [fst] in Hs.
     assert (H1 : wq w w1) by (eapply wq_trans; [exact H0 | apply wq_same; exact Hs]).
     destruct r as [dd| | |]; try exact H1.
     destruct dd as [|b dd']; [exact H1|].
-    eapply wq_trans; [exact H1|]. eapply wq_trans; [|apply IH].
-    unfold wq. wsimpl. apply qreach_step. constructor.
-  - unfold wq. wsimpl. apply qreach_step. constructor.
+    eapply wq_trans; [exact H1|]. eapply wq_trans; [|apply IH]. qstep0.
+  - qstep0.
 Qed.
 
 Lemma wait_for_progress_wq : forall fuel w, wq w (fst (wait_for_progress fuel w)).
@@ -238,11 +253,10 @@ Proof.
   - apply bindu_wq; [apply flush_outbound_wq | intros; apply wq_refl].
   - pose proof (write_all_wq fuel bs w) as H. destruct (write_all fuel bs w) as [w1 r]. cbn [fst] in H.
     destruct r as [u|e| | |]; try exact H.
-    + pose proof (io_flush_sess w1) as [Hs _]. destruct (io_flush w1) as [w2 fr]. cbn [fst] in Hs.
+    + pose proof (io_flush_sess w1) as Hs. destruct (io_flush w1) as [w2 fr]. cbn [fst] in Hs.
       assert (H2 : wq w w2) by (eapply wq_trans; [exact H | apply wq_same; exact Hs]).
       destruct fr; try exact H2.
-      * eapply wq_trans; [exact H2|]. unfold wq. wsimpl.
-        unfold note_outbound_activity. apply qreach_step. constructor.
+      * eapply wq_trans; [exact H2|]. unfold note_outbound_activity. qstep0.
       * eapply wq_trans; [exact H2 | apply hd_wq].
     + destruct e; try (eapply wq_trans; [exact H | apply hd_wq]). exact H.
 Qed.
@@ -252,9 +266,8 @@ Proof.
   intros. unfold op_publish. destruct (negb _); [apply wq_refl|].
   apply bindu_wq; [apply flush_outbound_wq|]. intros w1.
   destruct (publish_middle (w_sess w1) (w_live w1) r) as [s2 m] eqn:E.
-  eapply wq_trans; [|apply finish_mid_wq]. unfold wq. wsimpl.
-  replace s2 with (fst (publish_middle (w_sess w1) (w_live w1) r)) by now rewrite E.
-  apply qreach_step. constructor.
+  eapply wq_trans; [|apply finish_mid_wq].
+  replace s2 with (fst (publish_middle (w_sess w1) (w_live w1) r)) by now rewrite E. qstep0.
 Qed.
 
 Lemma op_subscribe_wq : forall fuel t ps w, wq w (fst (op_subscribe fuel t ps w)).
@@ -263,9 +276,8 @@ Proof.
   destruct (negb _); [apply wq_refl|].
   apply bindu_wq; [apply flush_outbound_wq|]. intros w1.
   destruct (subscribe_middle (w_sess w1) (p :: t) ps) as [s2 m] eqn:E.
-  eapply wq_trans; [|apply finish_mid_wq]. unfold wq. wsimpl.
-  replace s2 with (fst (subscribe_middle (w_sess w1) (p :: t) ps)) by now rewrite E.
-  apply qreach_step. constructor.
+  eapply wq_trans; [|apply finish_mid_wq].
+  replace s2 with (fst (subscribe_middle (w_sess w1) (p :: t) ps)) by now rewrite E. qstep0.
 Qed.
 
 Lemma op_unsubscribe_wq : forall fuel t ps w, wq w (fst (op_unsubscribe fuel t ps w)).
@@ -274,9 +286,8 @@ Proof.
   destruct (negb _); [apply wq_refl|].
   apply bindu_wq; [apply flush_outbound_wq|]. intros w1.
   destruct (unsubscribe_middle (w_sess w1) (b :: t) ps) as [s2 m] eqn:E.
-  eapply wq_trans; [|apply finish_mid_wq]. unfold wq. wsimpl.
-  replace s2 with (fst (unsubscribe_middle (w_sess w1) (b :: t) ps)) by now rewrite E.
-  apply qreach_step. constructor.
+  eapply wq_trans; [|apply finish_mid_wq].
+  replace s2 with (fst (unsubscribe_middle (w_sess w1) (b :: t) ps)) by now rewrite E. qstep0.
 Qed.
 
 Lemma op_disconnect_wq : forall fuel d w, wq w (fst (op_disconnect fuel d w)).
@@ -285,8 +296,11 @@ Proof.
   destruct (disconnect_prepare _ _); [apply wq_refl|].
   pose proof (write_all_wq fuel bs w) as H. destruct (write_all fuel bs w) as [w1 r]. cbn [fst] in H.
   destruct r as [u|e| | |]; try exact H.
-  - pose proof (io_flush_sess w1) as [Hs _]. destruct (io_flush w1) as [w2 fr]. cbn [fst] in Hs.
+  - pose proof (io_flush_sess w1) as Hs. destruct (io_flush w1) as [w2 fr]. cbn [fst] in Hs.
     assert (H2 : wq w w2) by (eapply wq_trans; [exact H | apply wq_same; exact Hs]).
     destruct fr; try exact H2; (eapply wq_trans; [exact H2 | apply hd_wq]).
   - eapply wq_trans; [exact H | apply hd_wq].
 Qed.
+
+Lemma wq_sreach : forall w w', wq w w' -> sreach (w_sess w) (w_sess w').
+Proof. intros w w' [b [H _]]. eapply ereach_sreach; exact H. Qed.
